@@ -451,11 +451,11 @@ class Impl:
         return "ok"
 
     # ---- C02 queries
-    def op_q2(self, s, t, k="0", *rest):
+    def op_q2(self, s, t, k=None, *rest):
         G = self.G(s)
         t = tok(t)
         C = self.C
-        nb = None if int(k) == 0 else [self.I(int(x)) for x in rest[:int(k)]]
+        nb = None if k is None else [self.I(int(x)) for x in rest[:int(k)]]
         D = G.is_directed()
         r = {}
 
